@@ -15,6 +15,10 @@ RULE = ("census of every documented random source on 16 threads of one process a
 THREADS = 16
 
 
+# cards whose size is not a multiple of 2, 4, 8 or 16 digits, down to a single digit (digit count, height, width)
+ODD_CARDS = [(1, 1, 1), (1, 1, 3), (1, 1, 5), (1, 1, 7), (1, 3, 3), (1, 13, 1), (1, 3, 5), (3, 3, 3), (2, 5, 5), (3, 7, 9), (1, 9, 17), (5, 7, 7)]
+
+
 def census(w, src, n, threads, **kw):
     src = "mc_card" if src.startswith("mc_card") else src
     ev = w.call("census", src=src, n=n, threads=threads, u="CENSUS", p="CENSUSPW", v=kw.pop("v"), salt=kw.pop("salt"), **kw)
@@ -75,8 +79,16 @@ def run(tier, seed):
     v0 = M.to_le(M.calc_v(un, pn, salt0))
 
     def viol(sig, what):
+        src = sig.split(":")[0].split("@")[0]
+        extra = ""
+        dims = {"mc_card": (2, 8, 8), "mc_card_big": (4, 26, 26), "mc_card_mid": (3, 10, 12)}
+        if src.startswith("mc_card_odd_"):
+            dims[src] = tuple(int(x) for x in src[len("mc_card_odd_"):].split("x"))
+        if src in dims:
+            extra = "\tdc=%d\tch=%d\tcw=%d" % dims[src]
+            src = "mc_card"
         mon.violation("c15:" + sig, what, {"engine": "wsx", "kind": "raw", "commands": [
-            "census\tsrc=%s\tn=64\tthreads=2\tu=%s\tp=%s\tv=%s\tsalt=%s\trefresh=4" % (sig.split(":")[0].split("@")[0], un.encode().hex(), pn.encode().hex(), v0.hex(), salt0.hex())]})
+            "census\tsrc=%s\tn=64\tthreads=2\tu=%s\tp=%s\tv=%s\tsalt=%s\trefresh=4%s" % (src, un.encode().hex(), pn.encode().hex(), v0.hex(), salt0.hex(), extra)]})
 
     procs = [Wsx(), Wsx()]
     results = [{}, {}]
@@ -91,6 +103,9 @@ def run(tier, seed):
                 ("tseed", 256 if pi == 0 else 2048, {}),
                 ("wseed", 256 if pi == 0 else 2048, {}),
                 ("pin_seed", 256 if pi == 0 else 2048, {}),
+                ("vseed_d", 256 if pi == 0 else 2048, {}),
+                ("tseed_d", 256 if pi == 0 else 2048, {}),
+                ("wseed_d", 256 if pi == 0 else 2048, {}),
                 ("integrity_salt", 4096 * mult // threads if pi == 0 else 1024, {}),
                 ("pin_salt", 4096 * mult // threads if pi == 0 else 1024, {}),
                 ("mc_seed", 4096 * mult // threads if pi == 0 else 1024, {}),
@@ -100,6 +115,9 @@ def run(tier, seed):
                 ("mc_card_big", 4 * mult if pi == 0 else 4, {"dc": 4, "ch": 26, "cw": 26}),
                 ("mc_card_mid", 8 * mult if pi == 0 else 8, {"dc": 3, "ch": 10, "cw": 12}),
             ]
+            if pi == 0:
+                for (dc, ch, cw) in ODD_CARDS:
+                    plan.append(("mc_card_odd_%dx%dx%d" % (dc, ch, cw), 32, {"dc": dc, "ch": ch, "cw": cw}))
             for src, n, kw in plan:
                 per_thread, ev = census(w, src, n, threads, v=v0, salt=salt0, **kw)
                 if per_thread is None:
@@ -175,7 +193,7 @@ def run(tier, seed):
         # per thread sequences must differ across threads too (covered by global distinctness)
         per_byte(mon, src, a + b, viol)
         mon.sample({"source": src, "first": a[0].hex(), "draws": len(a) + len(b)}, cap=12)
-    for src in ("vseed", "tseed", "wseed", "pin_seed"):
+    for src in ("vseed", "tseed", "wseed", "pin_seed", "vseed_d", "tseed_d", "wseed_d"):
         a, b = flat(0, src), flat(1, src)
         if not a:
             mon.inconc("no values observed for %s" % src)
@@ -246,6 +264,34 @@ def run(tier, seed):
         bad = sum(1 for c in big for d in c if d > 9)
         if bad:
             viol("%s:digit_out_of_range" % src, "%d digits outside 0..9" % bad)
+    # ---- cards of odd sizes: the expected number of digits, every position varies, digits in range, no repeats where the
+    #      card is long enough for a repeat to be impossible by chance
+    for (dc, ch, cw) in ODD_CARDS:
+        src = "mc_card_odd_%dx%dx%d" % (dc, ch, cw)
+        cs = flat(0, src)
+        if not cs:
+            mon.inconc("no cards observed for %s" % src)
+            continue
+        L = dc * ch * cw
+        mon.ev(len(cs))
+        mon.count("odd_size_cards", len(cs))
+        wrong = [c for c in cs if len(c) != L]
+        if wrong:
+            viol("%s:card_size" % src, "MatrixCard::new(%d, %d, %d) holds %d digits, expected %d" % (dc, ch, cw, len(wrong[0]), L))
+            continue
+        if any(d > 9 for c in cs for d in c):
+            viol("%s:digit_out_of_range" % src, "digits outside 0..9 on a %d-digit card" % L)
+        stuck = [pos for pos in range(L) if len({c[pos] for c in cs}) < 8]
+        if len(cs) < 200:
+            mon.inconc("%s: only %d cards, the per-position test needs >= 200" % (src, len(cs)))
+        elif stuck:
+            pos = stuck[-1]
+            viol("%s:position_low_variability" % src, "MatrixCard::new(%d, %d, %d): digit position %d of %d takes only the values %s over %d cards (%d such positions)" % (
+                dc, ch, cw, pos, L, sorted({c[pos] for c in cs}), len(cs), len(stuck)))
+        else:
+            mon.cell(("odd_card_positions_vary", src))
+        if L >= 13:
+            distinct_check(mon, src, cs, viol)
     # ---- exchanges: b via B, a via A, challenges
     groups = collections.defaultdict(list)
     draws = {"B": [], "A": []}
